@@ -318,7 +318,8 @@ fn g1_encode_roundtrip() {
     let y: [u64; 6] = kani::any();
     let inf: bool = kani::any();
     kani::assume(lt(&x, &Q) && lt(&y, &Q) && !is0(&y));
-    let p = if inf { G1Affine::zero() } else { G1Affine::verif_from_raw(mkfq(x), mkfq(y), false) };
+    // the identity in ANY affine representation: infinity = true with arbitrary residual coordinates (not only the canonical zero())
+    let p = G1Affine::verif_from_raw(mkfq(x), mkfq(y), inf);
     // independent encoders
     let mut wu = [0u8; 96];
     let mut wc = [0u8; 48];
@@ -360,7 +361,7 @@ fn g1_encode_roundtrip() {
     let d = u.into_affine_unchecked();
     assert!(d.is_ok());
     if let Ok(q) = &d {
-        assert!(*q == p);
+        assert!(if inf { q.is_zero() } else { *q == p });
     }
     unsafe {
         SQRT_SOME = true;
@@ -370,7 +371,7 @@ fn g1_encode_roundtrip() {
     let d2 = c.into_affine_unchecked();
     assert!(d2.is_ok());
     if let Ok(q) = &d2 {
-        assert!(*q == p);
+        assert!(if inf { q.is_zero() } else { *q == p });
     }
     kani::cover!(!inf && lt(&neg(&y), &y), "sort flag set");
     std::mem::forget(d);
@@ -540,7 +541,8 @@ fn g2_encode_roundtrip() {
     let y: [[u64; 6]; 2] = kani::any();
     let inf: bool = kani::any();
     kani::assume(lt(&x[0], &Q) && lt(&x[1], &Q) && lt(&y[0], &Q) && lt(&y[1], &Q) && !(is0(&y[0]) && is0(&y[1])));
-    let p = if inf { G2Affine::zero() } else { G2Affine::verif_from_raw(mkfq2(x), mkfq2(y), false) };
+    // the identity in ANY affine representation: infinity = true with arbitrary residual coordinates (not only the canonical zero())
+    let p = G2Affine::verif_from_raw(mkfq2(x), mkfq2(y), inf);
     let mut wu = [0u8; 192];
     let mut wc = [0u8; 96];
     let ny = [neg(&y[0]), neg(&y[1])];
@@ -573,7 +575,7 @@ fn g2_encode_roundtrip() {
     let d = u.into_affine_unchecked();
     assert!(d.is_ok());
     if let Ok(q) = &d {
-        assert!(*q == p);
+        assert!(if inf { q.is_zero() } else { *q == p });
     }
     unsafe {
         SQRT_SOME = true;
@@ -583,7 +585,7 @@ fn g2_encode_roundtrip() {
     let d2 = c.into_affine_unchecked();
     assert!(d2.is_ok());
     if let Ok(q) = &d2 {
-        assert!(*q == p);
+        assert!(if inf { q.is_zero() } else { *q == p });
     }
     kani::cover!(!inf && lt2(&ny, &y), "sort flag set");
     std::mem::forget(d);
